@@ -100,7 +100,7 @@ def lifecycle_history(rng, n, insts, tc, with_find=True, with_sub=False, ann0=No
             if with_find and (not with_sub or rng.random() < 0.3):
                 k = 1 if (mc and multi_rr) else rng.choice([1, 1, 2])
                 for _ in range(k):
-                    es.append({"ty": "find", "svc": rng.choice(["f1", "f1", "f1x", "f1m", "f1i", "f3", "f4", "f4x", "fz"]),
+                    es.append({"ty": "find", "svc": rng.choice(["f1", "f1", "f1x", "f1m", "f1i", "f1v", "f3", "f4", "f4x", "fz"]),
                                "ttl": 3, "opts": []})
             if with_sub:
                 for _ in range(rng.choice([1, 1, 2, 3])):
